@@ -15,6 +15,7 @@ params:
              throttle: count                  timeout: T (ticks)
   jobs     [{"st": stack, "S": submit tick, "D": duration(s) per attempt (0 = never, manual only),
              "script": [["V"|"E"|"F", tag], ...] outcome per attempt, "C": delegate future cancellable (manual),
+             "self_shutdown": the callable calls shutdown(wait=True) of its own stack,
              "K": tick of a client cancel() or None, "CD": ticks the delegate future's cancel() takes before refusing (manual), "mfail": map / flat_map fn raises, "polls": polls needed}]
   comb     [{"op": "zip" | "or" | "and" | "map", "ins": [job numbers (1-based)], "at": tick, "K": cancel tick}]
   snaps    ticks at which the main thread waits for quiescence and snapshots the registry
@@ -175,6 +176,12 @@ class LTap(Executor):
             ctx.in_cos[thr] = (self.exid, ctx.depth.get(thr, 0))
         try:
             self._d.shutdown(wait, **kw)
+        except E.SchedAbort:
+            raise
+        except BaseException:
+            # (e.g. shutdown(wait=True) called from one of the executor's own threads: "cannot join current thread")
+            E.emit("ExecShutdownRaise", k=self.typ, c=self.exid, b=self.inst)
+            raise
         finally:
             if self.typ == T_COS:
                 if prev is None:
@@ -365,6 +372,22 @@ def build(p):
             script = [(kind, v if kind == "V" else "%s%d" % (tag, j)) for kind, tag in jb.get("script", [["V", 0]])]
             dur = 0 if stacks[si].get("base", "manual") == "manual" else jb.get("D", 0)
             fn = H.Scripted(j, script, dur=dur)
+            if jb.get("self_shutdown"):
+                # the callable shuts its own stack down (from whichever thread runs it - a pool worker, the retry
+                # executor's submit thread over a synchronous base ...): shutdown(wait=True) may then raise because a
+                # thread cannot join itself; the executors are shut down all the same
+                inner_fn = fn
+
+                def fn(*a, **k):
+                    if si not in down:
+                        down.add(si)
+                        E.emit("ShutdownCall", f=si, a=1)
+                        try:
+                            tops[si].shutdown(True)
+                            E.emit("ShutdownRet", f=si)
+                        except RuntimeError:
+                            E.emit("ShutdownRaise", f=si)
+                    return inner_fn(*a, **k)
             E.emit("SubmitCall", f=j)
             E.upoint()
             try:
